@@ -516,3 +516,54 @@ def panic_search(repo, prop, tier, seed=1):
             shutil.rmtree(os.path.join(WORK_BASE, "des-drivers-target-" + tag), ignore_errors=True)
         fcntl.flock(lockf, fcntl.LOCK_UN)
         lockf.close()
+
+
+def cfg_search(repo, prop, tier, seed=1):
+    """C17 bounded replay (replay/cfg_driver): random flat dotted-key configurations and module paths on the real des-net-utils crate."""
+    t0 = time.time()
+    os.makedirs(WORK_BASE, exist_ok=True)
+    lockf = open(os.path.join(WORK_BASE, "rt_driver.lock"), "w")
+    fcntl.flock(lockf, fcntl.LOCK_EX)
+    try:
+        count = 2000000 if tier == "thorough" else 100000
+        res = {"what": "bounded replay of C17 on the real `des-net-utils` crate (Cfg::new = compartmentalize, Cfg::capture_for = Props::update_from, Props::set / keys / get_raw): %d seeded random scenarios: a module path of depth 1..4 over the names a, ab, abc, b, bob, n, n\u00e9, x1 (siblings that are textual prefixes of each other, one non-ASCII), a flat configuration of 1..7 entries whose keys are derived from the path (same depth or off by one; every segment kept, replaced by a sibling name or by <any>) followed by one of the property names x, y, addr, x.y, b; in every third scenario a second configuration is captured into the same Props afterwards. The keys and values the module ends up with are compared with the property statement read literally (key = path, each segment literal or <any>, then the name): no foreign name, every addressed name present, the value that of some addressing entry, no panic" % count,
+               "bound": "%d random scenarios; seed %d" % (count, seed), "labelled": "bounded", "counts_as_proof": False}
+        exe, err = _build_rt(repo, "cfg_driver")
+        if exe is None:
+            res.update({"status": "not_run", "reason": "driver does not build against this tree: " + err, "wall_s": round(time.time() - t0, 2)})
+            return res
+        try:
+            p = subprocess.run([exe, "search", str(count), str(seed)], stdout=subprocess.PIPE, stderr=subprocess.PIPE, timeout=900)
+        except subprocess.TimeoutExpired:
+            res.update({"status": "mismatch", "mismatch": {"mismatch": True, "kind": "capture-does-not-return", "props": "C17", "expected": "every scenario terminates", "observed": "no result within 900 s"}, "wall_s": round(time.time() - t0, 2)})
+            return res
+        line = (p.stdout.decode("utf8", "replace").strip().splitlines() or ["{}"])[-1]
+        try:
+            j = json.loads(line)
+        except Exception:
+            j = {}
+        res["wall_s"] = round(time.time() - t0, 2)
+        res["cmd"] = "cfg_driver search %d %d   (built from replay/cfg_driver against %s/des-net-utils)" % (count, seed, repo)
+        if j.get("mismatch"):
+            j["scenario"] = {"cfg_scenario": j.get("scenario")}
+            res.update({"status": "mismatch", "mismatch": j})
+        elif "scenarios" in j:
+            res.update({"status": "no_mismatch", "scenarios": j["scenarios"], "sample": j.get("sample")})
+        else:
+            res.update({"status": "not_run", "reason": "driver crashed: " + p.stderr.decode("utf8", "replace")[-300:]})
+        return res
+    finally:
+        if repo != "/repo" and not os.environ.get("VERIF_KEEP_CACHE"):
+            tag = hashlib.sha1(repo.encode()).hexdigest()[:8]
+            shutil.rmtree(os.path.join(WORK_BASE, "cfg_driver-" + tag), ignore_errors=True)
+            shutil.rmtree(os.path.join(WORK_BASE, "des-drivers-target-" + tag), ignore_errors=True)
+        fcntl.flock(lockf, fcntl.LOCK_UN)
+        lockf.close()
+
+
+def cfg_replay(repo, scenario_json):
+    exe, err = _build_rt(repo, "cfg_driver")
+    if exe is None:
+        return "not run: " + err
+    p = subprocess.run([exe, "replay", scenario_json], stdout=subprocess.PIPE, stderr=subprocess.PIPE, timeout=60)
+    return p.stdout.decode("utf8", "replace").strip()
